@@ -1497,6 +1497,14 @@ def run_case(case):
         gens.append({'mods': mods, 'node': nodeobs, 'by': 'Server._processCfg' if srv is not None else 'vlib.node.Node'})
         if node.errors or not case.get('restart') or os.environ.get('VERIF_C10_NORESTART'):
             break                       # a node with configuration errors exits: there is no restart
+    # the loggers of this case's nodes (vlib.node: 'fv<n>…', make_server: 'fvs<n>…') would pile up in the logging manager;
+    # `logging.disable` walks over all of them on every call, which made long runs quadratic
+    ld = logging.Logger.manager.loggerDict
+    for k in [k for k in ld if k.startswith('fv')]:
+        del ld[k]
+    for sp in case['specs']:                    # the generated classes of this case (re-registered when a case is re-run)
+        if hasattr(sys.modules.get(GENMOD), sp['id']):
+            delattr(sys.modules[GENMOD], sp['id'])
     return {'gens': gens, 'merge': merge}
 
 
@@ -1818,48 +1826,53 @@ def run(ctx):
                 'failing modules, optional attached modules good / typo + wrong kind); non-trivial = a module that is '
                 'registered with at least one configured parameter entry, or rejected with an injected error')
     rng = ctx.rng
-    n = ctx.budget(1000, 10000)
+    n = ctx.budget(1000, 20000)
     shrunk = 0
     idx = 0
-    cases = []
-    for c in corpus_cases(ctx):
-        cases.append(('corpus', c))
-    for _ in range(n):
-        idx += 1
-        cases.append(('gen', gen_case(rng, idx)))
+    def all_cases():
+        for c in corpus_cases(ctx):
+            yield 'corpus', c
+        for i in range(1, n + 1):
+            yield 'gen', gen_case(rng, i)
+    cases = all_cases()
     O01 = 0
-    prepared = []
-    for origin, case in cases:
-        if origin == 'corpus' and case.get('kind') == 'node':
-            origin, case = 'gen', case['case']
-        if origin == 'corpus':
-            try:
-                r = run_single(case['spec'], case['name'], case['jcfg'])
-            except Exception as e:
-                res.notes.append(f'corpus case failed to run: {e!r}')
-                continue
-            out = {'gens': [{'mods': [r], 'node': None}], 'merge': None}
-        else:
-            out = run_case(case)
-        reqs = []
-        for g in out['gens']:
-            for mo in g['mods']:
-                mo['pos'] = len(reqs)
-                reqs += module_requests(mo)
-            if g['node'] is not None:
-                g['pos'] = len(reqs)
-                reqs += node_requests(g)
-        mpos = None
-        if out['merge'] is not None:
-            mpos = len(reqs)
-            reqs.append({'p': 'C10', 'k': 'merge', 'files': out['merge']['files_raw']})
-            reqs.append({'p': 'C10', 'k': 'judge_merge', 'files': out['merge']['files_obs'], 'merged': out['merge']['merged']})
-        prepared.append((origin, case, out, reqs, mpos))
+    def prepare():
+        # cases are generated, run and judged in chunks: nothing of a chunk is kept afterwards
+        for origin, case in cases:
+            if origin == 'corpus' and case.get('kind') == 'node':
+                origin, case = 'gen', case['case']
+            if origin == 'corpus':
+                try:
+                    r = run_single(case['spec'], case['name'], case['jcfg'])
+                except Exception as e:
+                    res.notes.append(f'corpus case failed to run: {e!r}')
+                    continue
+                out = {'gens': [{'mods': [r], 'node': None}], 'merge': None}
+            else:
+                out = run_case(case)
+            reqs = []
+            for g in out['gens']:
+                for mo in g['mods']:
+                    mo['pos'] = len(reqs)
+                    reqs += module_requests(mo)
+                if g['node'] is not None:
+                    g['pos'] = len(reqs)
+                    reqs += node_requests(g)
+            mpos = None
+            if out['merge'] is not None:
+                mpos = len(reqs)
+                reqs.append({'p': 'C10', 'k': 'merge', 'files': out['merge']['files_raw']})
+                reqs.append({'p': 'C10', 'k': 'judge_merge', 'files': out['merge']['files_obs'], 'merged': out['merge']['merged']})
+            yield origin, case, out, reqs, mpos
 
     def answered(chunk=40):
         # one driver process per chunk of cases (starting the driver costs more than answering)
-        for i in range(0, len(prepared), chunk):
-            part = prepared[i:i + chunk]
+        import itertools
+        it = prepare()
+        while True:
+            part = list(itertools.islice(it, chunk))
+            if not part:
+                return
             ans = ctx.driver.batch([r for p in part for r in p[3]])
             for x in ans:
                 if 'driver_error' in x:
